@@ -132,11 +132,11 @@ func c15RunSeq(r *vbase.Result, batch int, ops []c15Op) bool {
 			var got res
 			select {
 			case got = <-ch:
-			case <-time.After(10 * time.Second):
+			case <-time.After(30 * time.Second):
 				// logically decided: no operation in flight and the model holds a full fresh batch; the wait only confirms
 				cancel()
 				<-ch
-				return fail("blocked-with-batch", fmt.Sprintf("Get still blocked after 10s although the oldest fresh commands %v form a full batch", want), i)
+				return fail("blocked-with-batch", fmt.Sprintf("Get still blocked after 30s although the oldest fresh commands %v form a full batch", want), i)
 			}
 			cancel()
 			if got.err != nil {
@@ -330,7 +330,7 @@ func c15Concurrent(p vbase.Params, r *vbase.Result) {
 			return fresh, total, true
 		}
 		// quiescence: consumers have drained every full fresh batch
-		deadline := time.Now().Add(10 * time.Second)
+		deadline := time.Now().Add(30 * time.Second)
 		lost := false
 		readable := true
 		for {
